@@ -46,7 +46,8 @@ fn main() {
             a[8].parse().unwrap(),
             a[9] == "1",
         ),
-        Some("replay") if a.len() >= 3 => driver::replay(&a[2]),
+        Some("replay") if a.len() >= 3 => driver::replay_guarded(&a[2]),
+        Some("replay-inner") if a.len() >= 3 => driver::replay(&a[2]),
         Some("selftest") => driver::selftest(),
         Some("conformance") => conformance::run(),
         Some("conformance-child") => conformance::child_zombie_leader(),
